@@ -387,3 +387,55 @@ func HarnessC10NoDeadline() {
 	(&grpcClient{protocolClientParams: params, web: web}).NewConn(context.Background(), Spec{StreamType: StreamTypeUnary}, header2)
 	check(len(header2[grpcHeaderTimeout]) == 0, "no deadline, no Grpc-Timeout")
 }
+
+// HarnessC10ServerDeadline: the peer's timeout is honoured - and a malformed
+// one rejected - also when the request context the server hands to the
+// handler already has a (later) deadline of its own, e.g. from middleware: the
+// handler's context gets the peer's timeout, user code does not run for a
+// malformed header.
+//
+//verif:harness property=C10 stubs=json,wire,ctx,clock shard=proto:3
+func HarnessC10ServerDeadline() {
+	proto := nondetChoice("proto", 3)
+	malformed := nondetBool("malformed")
+	serverHasDeadline := nondetBool("serverDeadline")
+	verifRemaining = time.Hour // what is left of the server's own deadline (time.Until stub)
+	userCalls := 0
+	var seen time.Duration
+	var has bool
+	handler := NewUnaryHandler("/pkg.Svc/Method", func(ctx context.Context, req *Request[[]byte]) (*Response[[]byte], error) {
+		userCalls++
+		seen, has = ctxTimeoutOf(ctx)
+		out := []byte{1}
+		return NewResponse(&out), nil
+	}, stackHandlerOptions()...)
+	ct := []string{"application/proto", "application/grpc+proto", "application/grpc-web+proto"}[proto]
+	body := []byte{0x41}
+	if proto != 0 {
+		body = refFrame(0, []byte{0x41})
+	}
+	header := http.Header{"Content-Type": {ct}}
+	value := "5000"
+	if proto != 0 {
+		value = "5S"
+	}
+	if malformed {
+		value = "5x"
+	}
+	header.Set([]string{connectHeaderTimeout, grpcHeaderTimeout, grpcHeaderTimeout}[proto], value)
+	req := &http.Request{Method: "POST", ProtoMajor: 2, Header: header, Body: &faultReader{data: body, cut: len(body)}}
+	if serverHasDeadline {
+		req = req.WithContext(&deadlineCtx{deadline: time.Unix(4102444800, 0), has: true}) // far in the future
+	}
+	rec := newRecWriter()
+	handler.ServeHTTP(rec, req)
+	status, rh, rt, rbody := rec.finish()
+	code, wellFormed := c07ResponseCode(proto, proto == 0, status, rh, rt, rbody)
+	check(wellFormed, "the response is well-formed")
+	if malformed {
+		check(code == int(CodeInvalidArgument) && userCalls == 0, "a malformed timeout is rejected as invalid_argument without running user code, whatever deadline the server's context has")
+		return
+	}
+	check(code == 0 && userCalls == 1, "a grammatical timeout is accepted")
+	check(has && durMatches(seen, 5*time.Second), "the handler's context gets the peer's timeout, whatever deadline the server's context has")
+}
